@@ -250,6 +250,32 @@ def clause5_teardown(ctx, P):
     ctx.floor("C01.5 R-ORDER", 3)
 
 
+def clause6_event_payload(ctx, P, cg):
+    """what a subscriber is told is a private copy of the element's value, rendered without a size limit of its own"""
+    nf = P.fn("fetch.c:notify_fetching_peer")
+    nval = 0
+    for c in nf.calls(("add_item_to_object", "cJSON_AddItemToObject", "cJSON_AddItemToObjectCS")):
+        if Q.arg_literal(P, c, 1) == "value":
+            nval += 1
+            t = P.term(nf, c.a[2])
+            ok = Q.is_call_to(t, "cJSON_Duplicate") and Q.is_field_load(t[2][0], "struct.element", "value") is not None
+            ctx.ob("C01.4 R-PAIR", nf, Q.ordinal_site(nf, c, P) + ":event-value-is-a-copy", ok,
+                   "the value attached to a notification is %s, expected cJSON_Duplicate(e->value): lending the element's own value to "
+                   "the message lets an error path of the message (the add helper frees an item it cannot attach) release the state's "
+                   "live value" % fmt_term(t))
+    if nval < 1:
+        raise AnalysisBroken("notify_fetching_peer: value attachment not found")
+    # rendering: heap rendering only (a fixed-size buffer silently drops messages that are larger than it)
+    fixed = []
+    for f in P.own_functions():
+        for c in f.calls(("cJSON_PrintPreallocated",)):
+            fixed.append(c)
+    ctx.ob("C01.4 R-WHO", nf, "messages-rendered-without-own-size-limit", not fixed,
+           "%s renders a message with cJSON_PrintPreallocated() into a fixed buffer at %s: a notification that is larger than the "
+           "buffer is dropped without anybody noticing, the subscriber's replica goes stale" %
+           (fixed[0].fn.srcname if fixed else "", fixed[0].loc if fixed else ""))
+
+
 def run(ctx):
     for cfg in ctx.configs(["default"] if ctx.tier == "quick" else None):
         P, cg = cfg.P, cfg.cg
@@ -258,3 +284,4 @@ def run(ctx):
         clause3_who(ctx, P)
         clause4_order(ctx, P)
         clause5_teardown(ctx, P)
+        clause6_event_payload(ctx, P, cg)
